@@ -37,15 +37,17 @@ class Arc_Dominator_Tree:
     
     def build_children_relation_X(self):
 
-        def dfs(node, last_in_X): # recall that X is a set of arcs. the term "node" is to allude to nodes of the dominator tree
+        # Preorder traversal of the dominator tree with an explicit stack (the tree can be as deep as the graph is long).
+        # Recall that X is a set of arcs. the term "node" is to allude to nodes of the dominator tree
+        stack = [(self.start, self.start)]
+        while stack:
+            node, last_in_X = stack.pop()
             if node != last_in_X and node in self.X: # note that sink and source are never in X
                 self.children_X[last_in_X].append(node)
                 self.idom_X[node] = last_in_X
                 last_in_X = node
-            for child in self.children[node]:
-                dfs(child, last_in_X)
-
-        dfs(self.start, self.start)
+            for child in reversed(self.children[node]):
+                stack.append((child, last_in_X))
 
     #a unitary path in a dominator tree is a path towards the root such that every node has exactly one children except the deepest node
     def find_unitary_path_X(self, arc : tuple, mode : str):
